@@ -75,6 +75,10 @@ def write_inputs(case, tmp):
     order = case.get("order")
     if order and len(order) == len(allspans):
         allspans = [allspans[i] for i in order]
+    # span records sent twice (legal: the first occurrence is stored, C10)
+    for i in sorted(case.get("dup_records", []), reverse=True):
+        i %= len(allspans)
+        allspans.insert(min(len(allspans), i + 1 + (i % 3)), allspans[i])
     nfiles = max(1, min(case.get("files", 1), len(allspans)))
     per = (len(allspans) + nfiles - 1) // nfiles
     for fi in range(nfiles):
